@@ -166,9 +166,22 @@ let sem_check (f : formula) (g : formula) (seed : int) : Sexp.t =
       | None -> L [ A "ok"; A (string_of_int !count); A "artefacts"; A (string_of_int !artefacts) ]
   end
 
-let sem_simplify_cls (e : Sexp.t) : Sexp.t =
+(* the idempotence oracle of C18 on the implementation's output of the fixpoint strategy: one more
+   post-order pass of the (model's) composed portfolio must leave it unchanged *)
+let not_a_fixpoint portfolio (g : formula) : Sexp.t option =
+  match M.StrategyCls.run_strategy_opt (nat_of_int 1) portfolio M.StrategyCls.Recursive g with
+  | M.StrategyCls.RDone g' when g' <> g ->
+    Some (L [ A "cex"; L [ A "result-of-the-fixpoint-strategy-is-not-a-fixpoint"; L [ A "result"; of_formula g ];
+                           L [ A "simplified-again"; of_formula g' ] ] ])
+  | _ -> None
+
+let sem_simplify_cls portfolio (e : Sexp.t) : Sexp.t =
   match e with
   | L [ _; L [ A "panic" ] ] | L [ _; L [ A "nonterminating" ] ] -> L [ A "ok"; A "0" ]
+  | L [ L [ A "fixpoint"; f ]; L [ A ("fixpoint" | "apply-fixpoint-differs"); g ] ] ->
+    (match not_a_fixpoint portfolio (formula g) with
+     | Some cex -> cex
+     | None -> sem_check (formula f) (formula g) (Semlib.hash_sexp e))
   | L [ L [ s; f ]; L [ s'; g ] ] when strategy s <> None && s = s' -> sem_check (formula f) (formula g) (Semlib.hash_sexp e)
   | L [ f; g ] -> sem_check (formula f) (formula g) (Semlib.hash_sexp e)
   | _ -> bad "sem_simplify_cls: %s" (to_string e)
@@ -191,6 +204,6 @@ let () =
       | L [ A "eqs"; f ] -> of_formula (C.extend_quantifier_scope (formula f))
       | L [ A "ste"; f ] -> of_opt_formula (C.simplify_transitive_equality_opt (formula f))
       | _ -> simplify_cls e);
-  Ops.register "sem_simplify_cls" sem_simplify_cls;
-  Ops.register "sem_simplify_full_classic" sem_simplify_cls
+  Ops.register "sem_simplify_cls" (sem_simplify_cls M.SimplClassic.coq_CLASSIC_opt);
+  Ops.register "sem_simplify_full_classic" (sem_simplify_cls M.ClsTerm.portfolio_classic_opt)
 let init () = ()
